@@ -10,6 +10,9 @@ CHECKS = {
 CHECKS['C03'] = dict(cat='exploration', tech='Hypothesis-generated configurations with a cost-override layer; oracle: independent roll-up of the run\'s own reported components (invariant over the snapshot taken between Calculate and PrintOutputs)',
              text='Generated runs over every end-use/plant family x econ model x cost layer (user-fixed vs correlated components, adjustment factors, totals, ITC/grants/fees/tax relief, correlations 1..17, laterals, redrilling); CCap, RITCValue, Coam, Cwell, Cpiping and the end-use equipment part of Cplant are recomputed from the reported parts at rel 1e-9 and every user-supplied figure must appear unchanged.',
              note='Trusts the snapshot walker (copies every Parameter/OutputParameter after Calculate). Standard Economics class only; sampled, not exhaustive, over continuous inputs.', ref='2/C03')
+CHECKS['C04'] = dict(cat='exploration', tech='Hypothesis-generated configurations with price/PTC/carbon/construction-year layers; oracle: independent rebuild of cash flow, running sum, NPV/IRR/VIR/MOIC/payback relations from the reported series',
+             text='Generated runs (every end-use, construction years 1..14, lifetime 1..100, escalation/PTC/carbon settings, both NPV conventions, with and without add-ons); the yearly cash flow is rebuilt from reported energy x price + carbon - O&M and -CAPEX/cy, the cumulative must be its running sum, and NPV, IRR (must zero the NPV), VIR, MOIC and payback (crossing year / N/A) are recomputed; the same metric relations are applied to the add-on project series.',
+             note='Sampled inputs; runs with non-positive capital cost and S-DAC-GT excluded by rule and counted; known finding F-C04-a (add-on IRR fraction) is matched narrowly by clause+scope+explanation.', ref='2/C04')
 NOT_YET = {}
 def main():
     props = [json.loads(l) for l in open(os.path.join(HERE, 'properties.jsonl'))]
